@@ -3,7 +3,7 @@
     Oracle side: for a closed goal, a verdict of the verified evaluator is the truth value of
     the goal (both directions) and singles out which of [Unique] / [NoSolution] meets the
     contract. *)
-From Chalk Require Import Logic.Contract Logic.Fuel.
+From Chalk Require Import Logic.Contract Logic.Fuel Logic.Inv.
 
 Theorem eval_correct : forall (fuel : nat) (P : program) (env : list clause) (rho : list ty) (g : goal) (b : bool),
   rr (allc P env) -> eval_goal fuel P env rho g = Some b -> (b = true <-> sat P env rho g).
@@ -28,3 +28,29 @@ Proof. exact Fuel.eval_goal_fuel_sufficient. Qed.
 Check eval_goal_fuel_sufficient : forall (g : goal) (fuel0 : nat) (P : program) (env : list clause) (rho : list ty) (n F : nat),
   goal_ready fuel0 P env rho g = Some n -> fuel0 <= F -> n < F ->
   exists b, eval_goal F P env rho g = Some b.
+
+Theorem eval_inv_false_sound : forall (g : goal) (fuel : nat) (univ : list ty) (P : program) (env : list clause) (rho : list ty),
+  rr (allc P env) -> eval_inv fuel univ P env rho g = Some false -> ~ sat_inv P env rho g.
+Proof. exact Inv.eval_inv_false_sound. Qed.
+Check eval_inv_false_sound : forall (g : goal) (fuel : nat) (univ : list ty) (P : program) (env : list clause) (rho : list ty),
+  rr (allc P env) -> eval_inv fuel univ P env rho g = Some false -> ~ sat_inv P env rho g.
+
+Theorem sat_inv_clean : forall (g : goal) (P : program) (env : list clause) (rho : list ty),
+  naf g = true -> phb_clauses env = 0%N -> phb_list rho = 0%N -> phb_goal g = 0%N ->
+  (sat_inv P env rho g <-> sat P env rho g).
+Proof. exact Inv.sat_inv_clean. Qed.
+Check sat_inv_clean : forall (g : goal) (P : program) (env : list clause) (rho : list ty),
+  naf g = true -> phb_clauses env = 0%N -> phb_list rho = 0%N -> phb_goal g = 0%N ->
+  (sat_inv P env rho g <-> sat P env rho g).
+
+Theorem sat_inv_le : forall (g : goal) (P : program) (env : list clause) (rho : list ty),
+  nn1 g = true -> sat_inv P env rho g -> sat P env rho g.
+Proof. exact Inv.sat_inv_le. Qed.
+Check sat_inv_le : forall (g : goal) (P : program) (env : list clause) (rho : list ty),
+  nn1 g = true -> sat_inv P env rho g -> sat P env rho g.
+
+Theorem neg_inv_differ :
+  neg_inv_shape false InvExamples.gn = true /\ sat InvExamples.Pn [] [] InvExamples.gn /\ ~ sat_inv InvExamples.Pn [] [] InvExamples.gn.
+Proof. exact InvExamples.neg_inv_differ. Qed.
+Check neg_inv_differ :
+  neg_inv_shape false InvExamples.gn = true /\ sat InvExamples.Pn [] [] InvExamples.gn /\ ~ sat_inv InvExamples.Pn [] [] InvExamples.gn.
